@@ -133,10 +133,13 @@ pub struct Cap {
     pub bytes: [[u8; CAP_B]; CAP_N],
     pub ndma: usize,
     pub dma: [*mut u8; 8],
+    /// C07 ledger (only when `ledger` is set): share k is still shared
+    pub ledger: bool,
+    pub live: [bool; CAP_N],
 }
 pub static mut CAP: Cap = Cap {
     n: 0, len: [0; CAP_N], dir: [0; CAP_N], ptr: [core::ptr::null_mut(); CAP_N], bytes: [[0; CAP_B]; CAP_N],
-    ndma: 0, dma: [core::ptr::null_mut(); 8],
+    ndma: 0, dma: [core::ptr::null_mut(); 8], ledger: false, live: [false; CAP_N],
 };
 
 /// HAL with device addresses different from driver pointers; captures shared buffers.
@@ -172,16 +175,33 @@ unsafe impl Hal for NHal {
                 let l = if buffer.len() < CAP_B { buffer.len() } else { CAP_B };
                 core::ptr::copy_nonoverlapping(buffer.as_ptr() as *const u8, CAP.bytes[i].as_mut_ptr(), l);
             }
+            CAP.live[i] = true;
             CAP.n += 1;
         }
         buffer.as_ptr() as *mut u8 as u64 + BOUNCE
     }
-    unsafe fn unshare(_paddr: PhysAddr, _buffer: NonNull<[u8]>, _direction: BufferDirection, _access_platform: bool) {}
+    unsafe fn unshare(paddr: PhysAddr, buffer: NonNull<[u8]>, _direction: BufferDirection, _access_platform: bool) {
+        unsafe {
+            if CAP.ledger {
+                // hal.rs `# Safety` of unshare: the buffer must be one share returned `paddr` for and not unshared since
+                let mut hit = false;
+                let mut k = 0;
+                while k < CAP_N {
+                    if k < CAP.n && CAP.live[k] && !hit && CAP.ptr[k] as u64 + BOUNCE == paddr && CAP.ptr[k] == buffer.as_ptr() as *mut u8 && CAP.len[k] == buffer.len() {
+                        CAP.live[k] = false;
+                        hit = true;
+                    }
+                    k += 1;
+                }
+                assert!(hit, "C07: unshare of a buffer that is not currently shared (second unshare, or an address share never returned)");
+            }
+        }
+    }
 }
 
 fn cap_reset() {
     log_reset();
-    unsafe { CAP.n = 0; CAP.ndma = 0; }
+    unsafe { CAP.n = 0; CAP.ndma = 0; CAP.ledger = false; CAP.live = [false; CAP_N]; }
 }
 
 /// feature word offered by the model device: the bits that matter to the driver are symbolic
@@ -398,5 +418,59 @@ fn c16_net1_short_len_keeps_buffer() {
     let r = net.receive();
     assert!(matches!(r, Err(Error::IoError)), "C16: used length shorter than the header must be an I/O error");
     assert!(some_count(&net.rx_buffers) == 2, "C16: receive buffer lost: neither posted nor owned by the caller after a failed receive");
+    core::mem::forget(net);
+}
+
+
+/// The model device appends a second element {id, len} to the used ring (index 2) of dma region `region`.
+fn dev_complete_second(region: usize, id: u32, len: u32) {
+    unsafe {
+        let u = CAP.dma[region];
+        *(u.add(4 + 8) as *mut u32) = id;
+        *(u.add(8 + 8) as *mut u32) = len;
+        *(u.add(2) as *mut u16) = 2;
+    }
+}
+
+/// C07 on the real network driver (BOUNDED stand-in: queue size 2, 1528-byte buffers, VERSION_1 negotiated; the
+/// device completes twice with symbolic ids 0..=2 (2 = never issued) and symbolic used lengths, also shorter than the
+/// header, also repeating the first id): whatever the two `receive` calls answer, the HAL ledger sees no second
+/// unshare and no unshare of an address share never returned, and a buffer handed to the caller is one of the two
+/// posted ones, its packet inside it.
+#[kani::proof]
+#[kani::unwind(34)]
+fn k07_net_rx_misbehave() {
+    cap_reset();
+    let mut t = KTransport::new(DeviceType::Network);
+    t.device_features = 1 << 32;
+    let mut net = VirtIONet::<NHal, KTransport, 2>::new(t, 1528).unwrap();
+    unsafe { CAP.ledger = true; }
+    let (p0, p1) = unsafe { (CAP.ptr[0], CAP.ptr[1]) };
+    let id1: u32 = kani::any();
+    let len1: u32 = kani::any();
+    kani::assume(id1 <= 2);
+    dev_complete_first(RX_USED, id1, len1);
+    let r1 = net.receive();
+    if let Ok(b) = &r1 {
+        let q = b.as_bytes().as_ptr() as *mut u8;
+        assert!(q == p0 || q == p1, "C07: received buffer is not one of the posted ones");
+        assert!(b.as_bytes().len() == 1528, "C07: received buffer length");
+    }
+    let id2: u32 = kani::any();
+    let len2: u32 = kani::any();
+    kani::assume(id2 <= 2);
+    dev_complete_second(RX_USED, id2, len2);
+    let r2 = net.receive();
+    if let Ok(b) = &r2 {
+        let q = b.as_bytes().as_ptr() as *mut u8;
+        assert!(q == p0 || q == p1, "C07: received buffer is not one of the posted ones");
+        if let Ok(b1) = &r1 {
+            assert!(b1.as_bytes().as_ptr() != b.as_bytes().as_ptr(), "C07: the same buffer handed to the caller twice");
+        }
+    }
+    kani::cover!(r1.is_err() && r2.is_err(), "both refused");
+    kani::cover!(r1.is_ok() && r2.is_ok(), "both delivered");
+    core::mem::forget(r1);
+    core::mem::forget(r2);
     core::mem::forget(net);
 }
